@@ -43,7 +43,7 @@ ASSUMPTIONS = [
     "formulas are sampled: Bool and BV(1..2) terms of depth <= 2 over <= 4 symbols",
 ]
 TIERS = {
-    "quick": {"runs": 60000, "budget_s": 60, "max_ops": 40},
+    "quick": {"runs": 50000, "budget_s": 75, "max_ops": 40},
     "thorough": {"runs": 1500000, "budget_s": 900, "max_ops": 60},
 }
 
